@@ -134,6 +134,12 @@ class MStr:
             cs.append(self.char_at(self.start + j) == ord(c))
         return z3.And(*cs)
 
+    def eq_str(self, other):
+        """equality of two views (possibly on different buffers)"""
+        n = min(self.L, other.L)
+        return z3.And(self.length == other.length,
+                      *[z3.Implies(k < self.length, self.char_at(self.start + k) == other.char_at(other.start + k)) for k in range(n)])
+
     def split(self, sep=None, maxsplit=-1, guard=True):
         if not (isinstance(sep, str) and len(sep) == 1):
             raise NotImplementedError("split on a single concrete character only")
